@@ -153,6 +153,51 @@ Theorem C03_model_resets : forall (s : st) (k : nat) (l : list (option larr)), (
 Proof. exact model_resets. Qed.
 Print Assumptions C03_model_resets.
 
+(** numpy.unique on a sorted label list yields a true contiguous partition: names strictly increasing, lengths
+    positive, stix the running sums, spix = stix + len, and the labels are name_0 x len_0 ++ name_1 x len_1 ++ ... *)
+Theorem C03_unique_partition : forall l, Sorted.StronglySorted Z.le l ->
+  let '(nm, ix, ln) := np_unique l in partition_ok l nm ix (map2 Z.add ix ln) ln.
+Proof. exact unique_partition. Qed.
+Print Assumptions C03_unique_partition.
+
+(** lexsort returns a permutation of the positions that sorts the last (primary) key; ties keep their order (stable
+    insertion); gathering the primary key by it gives a sorted list *)
+Theorem C03_lexsort_perm_sorted : forall n pre (l0 : larr) idx, lexsort n (pre ++ [l0]) = OK idx ->
+  exists ps, plan_take (length l0) idx = Some ps /\ Sorted.StronglySorted Z.le (unsome (pick ps l0)) /\ Permutation.Permutation ps (seq 0 n).
+Proof. exact lexsort_sorts_primary. Qed.
+Print Assumptions C03_lexsort_perm_sorted.
+
+(** group_<axis> (all classes): afterwards the axis carries metadata that are a true partition of its group labels
+    (or it has no group labels and reports itself ungrouped) *)
+Theorem C03_group_partition : forall c s k s' g, (k < length (axes s))%nat -> grp (sch c k) = Some g -> op_group c s k = OK s' ->
+  grouped_ok (ax_of s' k) g \/ (nth g (labs (ax_of s' k)) None = None /\ is_grouped (ax_of s' k) = false).
+Proof. exact group_partition. Qed.
+Print Assumptions C03_group_partition.
+
+(** the invariant "grouped => true partition" is preserved by every public operation with any arguments ... *)
+Theorem C03_step_meta_inv : forall c s k o s', meta_ok c s -> step_k c s k o = OK s' -> meta_ok c s'.
+Proof. exact step_meta_inv. Qed.
+Print Assumptions C03_step_meta_inv.
+(** ... hence holds in every state of every history (both forms, all 12 operation kinds) started from a matrix that
+    satisfies it — in particular from any freshly constructed (ungrouped) matrix *)
+Theorem C03_history_meta_inv : forall c (h : list (form * opk)) s, meta_ok c s ->
+  Forall (fun x => meta_ok (fst (fst x)) (snd (fst x))) (fst (run c s (map (fun fo => HOp (fst fo) (snd fo)) h))).
+Proof. exact history_meta_inv. Qed.
+Print Assumptions C03_history_meta_inv.
+Theorem C03_fresh_meta_ok : forall c s, (forall k, is_grouped (ax_of s k) = false) -> meta_ok c s.
+Proof. exact meta_ok_fresh. Qed.
+Print Assumptions C03_fresh_meta_ok.
+
+(** every history of select / delete / remove / reorder / sort / group / ungroup steps (any class incl. the square ones,
+    any labelled axis, generic or axis-specific form, any arguments): each state reached is the image ([Rep]) of entity
+    lists whose members all come from the initial lists of the same axis — labels and cells travel with their entity *)
+Theorem C03_history_refines : forall (ent : Type) (val : list ent -> Z) (lbl : nat -> nat -> ent -> lab) c,
+  wf_cls c -> forall (h : list (form * uop)) s ess, Rep val lbl c s ess ->
+  Forall (fun x => exists ess', Rep val lbl (fst (fst x)) (snd (fst x)) ess' /\ sub ess ess')
+         (fst (run c s (map (fun fu => HOp (fst fu) (opk_of (snd fu))) h))).
+Proof. intros ent val lbl. exact (history_refines val lbl). Qed.
+Print Assumptions C03_history_refines.
+
 (** mutating = non-mutating counterpart (classes that do not drop labels) *)
 Theorem C03_delete_then_remove : forall c s k o s', drop_other c = false -> op_delete c s k o = OK s' -> op_remove c s k o = OK s'.
 Proof. exact delete_then_remove. Qed.
